@@ -117,13 +117,27 @@ func Walk(ctx context.Context, fileSystem fs.FS, prefix, delimiter, marker strin
 					if err != nil {
 						return fmt.Errorf("directory to object %q: %w", path, err)
 					}
+					// a directory object is a key like any other: it is
+					// subject to the marker and the prefix
+					if !pastMarker {
+						if path+"/" == marker {
+							pastMarker = true
+							return skipflag
+						}
+						if path+"/" < marker {
+							return skipflag
+						}
+					}
+					if prefix != "" && !strings.HasPrefix(path+"/", prefix) {
+						return skipflag
+					}
 					if pastMax {
 						truncated = true
 						return fs.SkipAll
 					}
 					objects = append(objects, dirobj)
 					if (len(objects) + len(cpmap)) == int(max) {
-						newMarker = path
+						newMarker = path + "/"
 						pastMax = true
 					}
 
